@@ -4,7 +4,7 @@
   role abbreviations only (`unroles`).
 -/
 import FcLemmas.KTieZipLoop
-import FcLemmas.KTieMergeMain
+import FcLemmas.KTieSteps
 
 set_option linter.unusedSimpArgs false
 set_option linter.unusedVariables false
